@@ -6,6 +6,7 @@ import (
 	"io"
 
 	"github.com/talostrading/sonic/internal"
+	"github.com/talostrading/sonic/sonicerrors"
 
 	"github.com/talostrading/sonic/internal/vf"
 )
@@ -51,6 +52,8 @@ type VerifTransport struct {
 	Concrete  bool // segment sizes are case-split into constants (long histories, DESIGN §2.13 regime B)
 	EOFErr    error // what a read at end of stream returns (nil: io.EOF)
 	WriteErr  error // if non-nil, writes fail with it (after accepting nothing)
+	WBlockAt  int   // if > 0: the WBlockAt-th call of Write reports would-block, accepting nothing
+	RBlockAt  int   // if > 0: the RBlockAt-th call of Read reports would-block, delivering nothing
 	Closed    bool
 	Reads     int
 	Writes    int
@@ -79,6 +82,9 @@ func (t *VerifTransport) eof() error {
 
 func (t *VerifTransport) Read(b []byte) (int, error) {
 	t.Reads++
+	if t.RBlockAt > 0 && t.Reads == t.RBlockAt {
+		return 0, sonicerrors.ErrWouldBlock
+	}
 	if len(b) == 0 {
 		// read(2) with a zero-length buffer returns 0, which every sonic stream (file.Read) reports as io.EOF
 		return 0, verifEOF
@@ -149,6 +155,9 @@ func (t *VerifTransport) Write(b []byte) (int, error) {
 	t.Writes++
 	if t.WriteErr != nil {
 		return 0, t.WriteErr
+	}
+	if t.WBlockAt > 0 && t.Writes == t.WBlockAt {
+		return 0, sonicerrors.ErrWouldBlock
 	}
 	if len(b) == 0 {
 		return 0, nil
